@@ -55,7 +55,11 @@
 EXTENDS Integers, Sequences, FiniteSets, TLC
 
 CONSTANTS
-  Heaps,       \* initial heaps: sequences of object descriptors (a class name, "arr", "scal", "qty", "dask")
+  Heaps,       \* initial heaps: sequences of object descriptors (a class name, "arr", "scal", "qty", "dask");
+               \* "scal" is ANY operand type that does not override __array_ufunc__ and is converted by
+               \* NumPy itself (Python numbers, every NumPy scalar type, 0-d arrays, list, tuple, range,
+               \* array.array, memoryview ...: the replayer's catalogue ufunc_replay.SCAL_KINDS) - the
+               \* handler must not look at it, only the inner call may refuse it (InnerError)
   Ufuncs,      \* records [name, nin, nout]
   Methods,     \* subset of {"call","reduce","accumulate","reduceat","outer","at"}
   DKinds,      \* abstract dtypes the inner call may return
